@@ -3820,6 +3820,13 @@ class Device(utils.CompositeEventEmitter):
             )  # TODO: timeout
 
         def on_connection(connection):
+            # Only the connection that we initiate completes this call, not an
+            # incoming or BR/EDR connection that happens to be reported meanwhile.
+            if (
+                connection.transport != PhysicalTransport.LE
+                or connection.role != hci.Role.CENTRAL
+            ):
+                return
             pending_connection.set_result(connection)
 
         def on_connection_failure(error: core.ConnectionError):
